@@ -6,6 +6,7 @@ import lena.core
 import lena.flow
 from lena.flow import get_context
 from lena.context import get_recursively
+from lena.core import LenaKeyError
 
 
 class Selector(object):
